@@ -90,6 +90,9 @@ def check(run):
             for pol in (['Block'] if kind in ('syncfile', 'fifofile', 'console', 'file', 'rolling', 'rollingsep', 'syncrollingapp') else ['Block', 'Discard', 'DiscardOldest']):
                 for _ in range(1 if quick else 6):
                     kcases.append('%s %d %s %d %d %d' % (kind, lay, pol, rng.choice([0, 1, 7, 60]), rng.choice([0, 1, 5]), 1 if rng.random() < 0.3 else 0))
+    # an appender shared by several loggers: whatever the order in which Destroy stops them, the buffered items of the asynchronous one reach the file
+    for _ in range(4 if quick else 24):
+        kcases.append('sharedapp %d Block %d %d 0' % (rng.randint(0, 1), rng.choice([50000, 60000]), rng.choice([0, 5])))   # most of the burst is still buffered when Destroy is called
     # rolling kinds again with the events spread over three rotation boundaries (descriptors are retired and closed on the way)
     for kind in ('rolling', 'rollingsep', 'rollingasync', 'syncrollingapp'):
         kcases.append('%s %d Block %d %d 0 3300' % (kind, rng.randint(0, 1), rng.choice([12, 40]), rng.choice([0, 3])))
@@ -108,7 +111,7 @@ def check(run):
                 run.add_violation('oracle:c05/kinds', 'after Destroy returned: ' + v, ['family c05k', 'case ' + c, 'impl ' + o[:2000], 'verdict ' + v])
             if not bad:
                 run.discharged += 1
-            run.stream('c05/logger-kinds', len(kcases), len(kcases), False, 'Refresh-built loggers of every kind (sync/async with file appender, console, file, rolling sync/async with/without .wf, rolling appender), '
+            run.stream('c05/logger-kinds', len(kcases), len(kcases), False, 'Refresh-built loggers of every kind (sync/async with file appender, console, file, rolling sync/async with/without .wf, rolling appender, a file appender shared by an asynchronous and four synchronous loggers), '
                        'with/without logger layout, in a third of the cases after a second Refresh that was rejected; events + raw writes (with nil and empty raw writes in between), then Destroy under a watchdog; sinks read immediately; descriptors into the log directory counted before/after')
             run.coverage['samples'].append({'stream': 'c05/logger-kinds', 'case': kcases[0], 'observation': io[0][:200]})
         # 3. appenders built directly: Stop once or twice, Stop without Start, Start again after Stop, writes outside Start..Stop
